@@ -59,9 +59,9 @@ def cases(desc):
 
 def deco(arr):
     """mutable metadata values at array and axis level"""
-    arr._attrs.update({'m': {'k': [1]}, 'lst': [1, 2]})
+    arr.attrs.update({'m': {'k': [1]}, 'lst': [1, 2]})
     for ax in arr.axes:
-        ax._attrs['am'] = [1, 2]
+        ax.attrs['am'] = [1, 2]
     return arr
 
 
